@@ -2,7 +2,7 @@ CONSTANTS
   RawConfigs <- MCRawConfigs
   InheritsSeesDefault = TRUE
   MaxLen = 3
-  TextVariants = {1, 2, 3, 4, 5}
+  TextVariants = {1, 2, 3, 4, 5, 6, 7, 8, 9}
 SPECIFICATION MCSpec
 INVARIANTS Conforms EmitCases
 PROPERTY Termination
